@@ -56,9 +56,24 @@ def start_worker(analysis: Analysis, flavour: str) -> dict:
         if kind == "raise":
             continue
         on = ("truthy", pkey) in s.facts
-        loads = [e for e in s.events if (e.kind == "opaque" and e.name == SAFE) or (e.kind == "await" and "safe_load_sensors" in repr(e.recv.key() if hasattr(e.recv, "key") else e.recv)) or (e.kind in ("call", "executor") and "safe_load_sensors" in repr([a.key() if hasattr(a, "key") else a for a in e.args]))]
-        rows.append({"on": on, "loads": len(loads), "witness": describe_path(out, 14)})
+        # the load has completed (it ran: opaque event) before anything else of the persistence object is started
+        load_i = [i for i, e in enumerate(s.events) if e.kind == "opaque" and e.name == SAFE]
+        sched_i = [i for i, e in enumerate(s.events) if (e.kind in ("call", "opaque", "await") and ("schedule_save" in e.name or (hasattr(e.recv, "key") and "schedule_save" in repr(e.recv.key()))))]
+        ordered = bool(load_i) and (not sched_i or load_i[0] < sched_i[0])
+        rows.append({"on": on, "loads": len(load_i), "ordered": ordered, "witness": describe_path(out, 14)})
     return {"qual": m.qual, "rows": rows}
+
+
+def start_rule(analysis: Analysis, res: RuleResult, rule: str) -> None:
+    """Both start_persistence variants run the safe loader to completion before the save schedule starts."""
+    # R4: the safe loader is what start-up uses, whatever files exist (main missing + intact backup included)
+    for summ in common.pmap(analysis, start_worker, ["sync", "async"]):
+        on = [r for r in summ["rows"] if r["on"]]
+        if not on:
+            res.add(rule, f"{summ['qual']} / loads the saved network when persistence is on", False, "mysensors/task.py", "no path with persistence on")
+        for r in on:
+            ok = r["loads"] >= 1 and r["ordered"]
+            res.add(rule, f"{summ['qual']} / every start with persistence on runs safe_load_sensors to completion before the save schedule is started", ok, "mysensors/task.py", "safe_load_sensors() completes first on every path" if ok else "a path starts persistence without (first) running safe_load_sensors to completion - e.g. only when the main file exists, or concurrently with the first scheduled save, which then writes the still empty network over the file", r["witness"] if not ok else None)
 
 
 def run(analysis: Analysis, tier: str) -> RuleResult:
@@ -110,14 +125,13 @@ def run(analysis: Analysis, tier: str) -> RuleResult:
         res.reindex()
         if not caught_classes:
             res.add("C13-R1", f"safe_load_sensors[{ext}] / damaged content is caught", False, "mysensors/persistence.py", "no handler catches a decoder error")
-    # R4: the safe loader is what start-up uses, whatever files exist (main missing + intact backup included)
-    for summ in common.pmap(analysis, start_worker, ["sync", "async"]):
-        on = [r for r in summ["rows"] if r["on"]]
-        if not on:
-            res.add("C13-R4", f"{summ['qual']} / loads the saved network when persistence is on", False, "mysensors/task.py", "no path with persistence on")
-        for r in on:
-            ok = r["loads"] >= 1
-            res.add("C13-R4", f"{summ['qual']} / every start with persistence on goes through safe_load_sensors (which decides about main and backup)", ok, "mysensors/task.py", "safe_load_sensors() on every path" if ok else "a path starts persistence without calling safe_load_sensors (e.g. only when the main file exists): a missing main file with an intact backup starts empty", r["witness"] if not ok else None)
+    # R2: the JSON object hook must not touch the network while the document is still being parsed
+    from ..effects import json_projection
+    from .c11 import decoder_side_effects
+
+    fx = decoder_side_effects(analysis, json_projection(analysis.p, analysis=analysis)["Sensor"])
+    res.add("C13-R2", "persistence:MySensorsJSONDecoder / the object hook has no effect on the gateway's maps (a document that fails to parse leaves no partial merge)", not fx, "mysensors/persistence.py", "pure construction" if not fx else f"the hook mutates long-lived state ({fx[0]}): json runs it on every completed inner object, so a truncated file has already inserted nodes when the decode error is caught")
+    start_rule(analysis, res, "C13-R4")
     res.units = {"formats": list(persist.EXTS), "source_digest": analysis.p.digest()}
     res.not_decided = ["exceptions outside the documented raise sets (crafted pickles)", "valid JSON of the wrong shape"]
     res.assumptions = ["raise sets of pickle.load / json.load as documented (sa/extmodel.py)", "OSError is an environment fault, not a content error"]
